@@ -109,6 +109,11 @@ def cases(tier, seed):
             if j % 2 == 1 and d >= 2:
                 for rm in (1, 2):
                     cs.append({'scen': 'ttsvd', 's': dict(base, rmax=rm)})
+    # complex128 copies of a sample (symbolic positive moduli with fixed rational unit phases; arbitrary complex entries for the one-row/one-column shapes)
+    from .C03 import _pick
+    pool = [c for c in cs if c['scen'] == 'ttsvd' and 'dtype' not in c['s']]
+    for c in _pick(pool, 30 if not th else 80, rng):
+        cs.append({'scen': 'ttsvd', 's': dict(c['s'], dtype='complex128')})
     return cs
 
 
